@@ -12,6 +12,10 @@ RULE = ("operands: every function of <=2 variables (all ordered pairs x all 16 c
         "(>70,000 nodes, canonical array built bottom-up from a random truth table) as right operand, a small non-constant "
         "left operand over 1..3 of the same variables, named and/or/xor (thorough: all six named, bin and fbin with flips). "
         "MEDIUM operands: pairs of random functions of 10..13 variables (250..1400 nodes), named/bin. "
+        "LARGE ternary operands (model side: the proved-equal fast ternary engine, Model/Apply3Fast.v, Proofs/Apply3Fast.v): "
+        "ite/tern with one operand a random function of 20 variables (>70,000 nodes) in EACH of the three positions and small "
+        "functions of 2..3 of the same variables in the others, random ternary connectives that depend on all three arguments "
+        "(thorough: two large operands as well); medium ternary triples (random functions of 10..11 variables). "
         "relation: canon(impl result) = model result (semantic equality at any variable count); for results above 400 "
         "nodes, where the list-based canonicaliser is not evaluated, exact array equality with the (proved canonical) model "
         "result; failing-input oracle at that size: raw evaluation of operands and result on 20,000 random valuations. "
@@ -22,68 +26,7 @@ NAMED = {"and": (False, False, False, True), "or": (False, True, True, True), "i
 
 
 # ----------------------------------------------------------------------------- large operands
-def big_bdd_from_tt(nv, ttbytes):
-    """Canonical array (library layout: DFS post-order, high child first, root last) of the function of
-    nv >= 3 variables whose truth table is `ttbytes` (2^nv bits, variable 0 most significant in the index,
-    index j stored at bit 7-(j&7) of byte j>>3).  Iterative: level-by-level unique table bottom-up (the
-    three lowest levels through a per-byte cache), then an explicit-stack DFS for the layout."""
-    assert nv >= 3 and len(ttbytes) == (1 << nv) // 8
-    uniq = {}
-    absn = [None, None]   # abstract id -> (var, lo id, hi id); ids 0/1 are the terminals
-
-    def mk(k, lo, hi):
-        if lo == hi:
-            return lo
-        key = (k, lo, hi)
-        a = uniq.get(key)
-        if a is None:
-            a = len(absn)
-            absn.append(key)
-            uniq[key] = a
-        return a
-
-    bytecache = {}
-
-    def of_byte(bv):
-        r = bytecache.get(bv)
-        if r is None:
-            bits = [(bv >> (7 - j)) & 1 for j in range(8)]
-            l1 = [mk(nv - 1, bits[2 * q], bits[2 * q + 1]) for q in range(4)]
-            l2 = [mk(nv - 2, l1[2 * q], l1[2 * q + 1]) for q in range(2)]
-            r = mk(nv - 3, l2[0], l2[1])
-            bytecache[bv] = r
-        return r
-
-    ids = [of_byte(bv) for bv in ttbytes]
-    for k in range(nv - 4, -1, -1):
-        ids = [mk(k, ids[2 * i], ids[2 * i + 1]) for i in range(1 << k)]
-    root = ids[0]
-    if root == 0:
-        return [(nv, 0, 0)]
-    out = [(nv, 0, 0), (nv, 1, 1)]
-    if root == 1:
-        return out
-    index = {0: 0, 1: 1}
-    stack = [(root, False)]
-    while stack:
-        a, children_done = stack.pop()
-        if a in index:
-            continue
-        k, lo, hi = absn[a]
-        if children_done:
-            index[a] = len(out)
-            out.append((k, index[lo], index[hi]))
-        else:
-            stack.append((a, True))
-            stack.append((lo, False))
-            stack.append((hi, False))   # popped first: high subtree is laid out first
-    return out
-
-
-def big_random_bdd(rng, nv):
-    return big_bdd_from_tt(nv, rng.getrandbits(1 << nv).to_bytes((1 << nv) // 8, "big"))
-
-
+# (big_bdd_from_tt / big_random_bdd live in gen/common.py)
 def small_left(rng, nv):
     """small non-constant function over 1..3 of the nv variables"""
     while True:
@@ -118,6 +61,50 @@ def large_cases(rng, tier):
                           optvar(rng.randrange(BIG_NV)), bdd_sx(small_left(rng, BIG_NV)), bs])
             # large operand on the left as well
             cases.append(["named", rng.choice(["or", "xor", "iff"]), bs, bdd_sx(small_left(rng, BIG_NV))])
+    return cases
+
+
+def conn3_depends_on_all(conn):
+    dep = lambda k: any(conn[i] != conn[i ^ (4 >> k)] for i in range(8))
+    return dep(0) and dep(1) and dep(2)
+
+
+def random_conn3(rng):
+    while True:
+        conn = tuple(rng.random() < 0.5 for _ in range(8))
+        if conn3_depends_on_all(conn):
+            return conn
+
+
+def large_ternary_cases(rng, tier):
+    """one operand above 65,536 nodes in each position of ite / tern (the other two small): the memo table of the ternary
+    loop is keyed by the pointer TRIPLE"""
+    cases = []
+    nv = BIG_NV
+    for r in range(1 if tier == "quick" else 3):
+        b = big_random_bdd(rng, nv)
+        assert len(b) > BIG_MIN_NODES
+        bs = bdd_sx(b)
+        sm = lambda: bdd_sx(small_fn_tt(rng, nv)[0])
+        # position b (then), position c of a random connective, position a (condition)
+        cases.append(["ite", sm(), bs, sm()])
+        cases.append(["tern", partial_table3(rng, random_conn3(rng)), sm(), sm(), bs])
+        cases.append(["ite", bs, sm(), sm()])
+        if tier == "thorough":
+            cases.append(["tern", partial_table3(rng, random_conn3(rng)), sm(), bs, sm()])
+            cases.append(["tern", partial_table3(rng, random_conn3(rng)), bs, sm(), sm()])
+            cases.append(["ite", sm(), sm(), bs])
+            b2 = bdd_sx(big_random_bdd(rng, nv))
+            cases.append(["ite", sm(), bs, b2])
+            cases.append(["tern", partial_table3(rng, random_conn3(rng)), bs, sm(), b2])
+    # medium triples: fast engine in the normal run, reference engine in the engine cross-check
+    for _ in range(2 if tier == "quick" else 20):
+        mv = rng.choice([10, 11])
+        x, y, z = (bdd_sx(big_random_bdd(rng, mv)) for _ in range(3))
+        if rng.random() < 0.5:
+            cases.append(["ite", x, y, z])
+        else:
+            cases.append(["tern", partial_table3(rng, random_conn3(rng)), x, y, z])
     return cases
 
 
@@ -191,7 +178,7 @@ def programs(rng, tier):
         a, b = random_bdd(rng, 3), random_bdd(rng, 4)
         add(["named", "and", bdd_sx(a), bdd_sx(b)])
     # large operands last (the vm_compute cross-check samples the first small binary steps)
-    for case in medium_cases(rng, tier) + large_cases(rng, tier):
+    for case in medium_cases(rng, tier) + large_cases(rng, tier) + large_ternary_cases(rng, tier):
         add(case)
     return progs
 
@@ -285,6 +272,12 @@ def oracle(call, impl):
         na, nb = bdd_nodes(co[1]), bdd_nodes(co[2])
         if na[0][0] == nb[0][0] and na[0][0] > 10:
             return oracle_sampled(call, impl)
+    if call[0] in ("ite", "tern"):
+        ops3 = [bdd_nodes(x) for x in call[1:] if is_bdd(x)]
+        if len({o[0][0] for o in ops3}) == 1 and ops3[0][0][0] > 10:
+            # more than 10 variables: raw evaluation of operands and result on 3000 random valuations (props/oracle.py)
+            from props import oracle as generic
+            return generic.check(call, impl)
     exp = expected_tt(call)
     if exp is None:
         # mismatch in variable counts: the property does not cover the call (panic expected)
@@ -318,6 +311,8 @@ def judge(st, V):
         if is_bdd(x):
             V.count("nv:%d" % bdd_nodes(x)[0][0])
             break
+    if any(is_bdd(x) and len(x) > 3 * 65536 for x in call[1:]):
+        V.count("large-operand(>65536 nodes):" + call[0])
     sample(V, st)
     if call[0] == "optable":
         if impl != model:
